@@ -394,3 +394,67 @@ package secp256k1
 //@   ensures okU [C03,C10]: imp(result == 0 && len(data) == 65, inv(e) && pt(e) == aff(fofint(os2ip(data[1:33])), fofint(os2ip(data[33:65]))))
 //@   ensures err [C03]: imp(result != 0, result == errParamInvalidPointEncoding && unchanged(e))
 //@   modifies *e
+
+// ---- scalar encodings ----
+//@ func Scalar.Encode
+//@   mode int
+//@   requires wfs(s)
+//@   ensures enc [C07,C15]: os2ip(result) == fint(sv(s))
+//@   returns fresh:32
+
+//@ func Scalar.Decode
+//@   mode int
+//@   lens in 0,1,31,32,33,*
+//@   requires wfs(s)
+//@   ensures acc [C07]: (result == 0) == (len(in) == 32 && os2ip(in) < N)
+//@   ensures e0 [C07]: imp(len(in) == 0, result == errParamNilScalar)
+//@   ensures elen [C07]: imp(len(in) != 0 && len(in) != 32, result == errParamScalarLength)
+//@   ensures ebig [C07]: imp(len(in) == 32 && N <= os2ip(in), result == errParamScalarTooBig)
+//@   ensures ok [C07,C10]: imp(result == 0, fint(sv(s)) == os2ip(in)) by nofint_fint(os2ip(in))
+//@   ensures canon [C07,C10]: wfs(s)
+//@   ensures keep [C07]: imp(len(in) != 32, unchanged(s))
+//@   modifies *s
+
+//@ func Scalar.MarshalBinary
+//@   mode int
+//@   requires wfs(s)
+//@   ensures enc [C07]: result1 == 0 && os2ip(result0) == fint(sv(s))
+//@   returns fresh:32
+
+//@ func Scalar.UnmarshalBinary
+//@   mode int
+//@   lens data 0,1,31,32,33,*
+//@   requires wfs(s)
+//@   ensures acc [C07]: (result == 0) == (len(data) == 32 && os2ip(data) < N)
+//@   ensures ok [C07]: imp(result == 0, fint(sv(s)) == os2ip(data)) && wfs(s)
+//@   modifies *s
+
+//@ func Scalar.Hex
+//@   mode int
+//@   requires wfs(s)
+//@   ensures enc [C07]: len(hexbytes(result)) == 32 && os2ip(hexbytes(result)) == fint(sv(s))
+
+//@ func Scalar.DecodeHex
+//@   mode int
+//@   requires wfs(s)
+//@   ensures acc [C07]: (result == 0) == (hexvalid(h) && len(hexbytes(h)) == 32 && os2ip(hexbytes(h)) < N)
+//@   ensures ok [C07]: imp(result == 0, fint(sv(s)) == os2ip(hexbytes(h))) && wfs(s)
+//@   modifies *s
+
+// ---- Random: ghost entropy stream of 32-byte blocks rndblock(0), rndblock(1), ...; ghost cursor rnd ----
+//@ declare firstnz(Int) Int
+//@ lemma firstnz_step(j) {lean: SecpSMT.firstnz_step}: firstnz(j) == ite(nofint(rndblock(j)) != Fn(0), j, firstnz(j + 1))
+
+//@ func Scalar.Random
+//@   mode int
+//@   requires !rndfail
+//@   ensures_panics fail [C18]: rndfail
+//@   ensures first [C18]: rnd == firstnz(old(rnd)) + 1
+//@   ensures v [C18]: wfs(s) && sv(s) != Fn(0) && sv(s) == nofint(rndblock(rnd - 1))
+//@   modifies *s, rnd, rndfail
+//@   returns s
+//@ loop 1
+//@   modifies m, buf, rnd
+//@   invariant wf: eval(m) < N && old(rnd) <= rnd && !rndfail
+//@   invariant st: ite(eval(m) == 0, firstnz(rnd) == firstnz(old(rnd)), fromMn(eval(m)) == nofint(rndblock(rnd - 1)) && rnd - 1 == firstnz(old(rnd)) && old(rnd) < rnd)
+//@   uses firstnz_step(rnd), nofint_mod(rndblock(rnd), rndblock(rnd) - N), glue_zero_n(eval(m))
